@@ -22,6 +22,9 @@ TECHNIQUE = "static analysis of built MIR: edge dominance (must-pass-through), n
 
 
 def run(facts, tr, rep):
+    # service-level rules on the shallow view (free helpers, async helpers and glue methods inlined; the circuit's own
+    # methods stay calls and are found by role); clauses about one circuit method use its fully inlined body
+    facts, tr = facts.shallow, tr.shallow
     _n_ops = check_no_panicking_time_arith(facts, tr, rep, "C03.NO-PANIC-ARITH", facts.crates[CRATE].bodies)
     rep.note("panicking Instant/Duration operators examined in the crate: %d" % _n_ops)
     cb = CB(facts, tr, rep)
@@ -62,42 +65,47 @@ def run(facts, tr, rep):
                "admission function does not branch on the circuit state")
         return
     rep.floor("C03.state-arms", len([v for v in ("Closed", "Open", "HalfOpen") if v in sw.variants]), 3)
-    # Open arm: true only under elapsed >= wait_duration_in_open, after the transition to HalfOpen
-    n_true = 0
+    # Open arm: a path that leaves the Open arm with a result other than `false` has passed the guard
+    # elapsed >= wait_duration_in_open and the transition to HalfOpen.  Decided on the return value's tag along
+    # feasible paths, so it does not matter whether the arm returns constants under an `if`, returns the
+    # comparison itself, or stores the verdict in a local that is returned after the match.
     ts_fields0 = [f["name"] for f in cb.circuit["variants"][0]["fields"] if "Instant" in facts.crates[CRATE].types[f["ty"]]["s"]]
     tcalls = [(b, cs, tgt) for (b, cs, tgt) in cb.transition_calls() if b is a]
-    for (i, j, node) in ret_assigns(tr, a):
-        if not cb.in_arm(a, sw_bb, sw, "Open", i):
+    op_entry = sw.variants.get("Open")
+    region = g.reach([op_entry], kinds=(N,)) if op_entry is not None else set()
+
+    def _is_wait_guard(e):
+        if e["kind"] != "bool":
+            return False
+        c = cmp_on_edge(tr, e)
+        ef = elapsed_form(tr, c) if c is not None else None
+        return ef is not None and mentions_field(tr, ef[1], "wait_duration_in_open") and any(mentions_field(tr, ef[0], tsf) for tsf in ts_fields0)
+    admit_edges = set()
+    for bb in sorted(region):
+        s2 = g.switch(bb)
+        if s2 is None or s2.kind != "bool" or not cb.in_arm(a, sw_bb, sw, "Open", bb):
             continue
-        for lf in leaves(node):
-            lf = peel(lf)
-            is_true = lf[0] == "const" and lf[1] == "true"
-            is_false = lf[0] == "const" and lf[1] == "false"
-            if is_false:
+        for lab in ("true", "false"):
+            tgt = s2.variants.get(lab)
+            if tgt is None or s2.variants.get("true") == s2.variants.get("false"):
                 continue
-            n_true += 1
-            ok_guard = False
-            gdesc = ""
-            for e in dominating_edges(tr, a, i):
-                if e["kind"] != "bool":
-                    continue
-                c = cmp_on_edge(tr, e)
-                if c is None:
-                    continue
-                op, x, y = c
-                ef = elapsed_form(tr, c)
-                if ef is not None and mentions_field(tr, ef[1], "wait_duration_in_open") and \
-                        any(mentions_field(tr, ef[0], tsf) for tsf in ts_fields0):
-                    ok_guard = True
-                    gdesc = g.where(e["bb"])
-            ok_trans = any(tgt == "HalfOpen" and g.node_dominates(cs.bb, i) for (_b, cs, tgt) in tcalls)
-            if not is_true:
-                ok_guard = False
-            rep.ob("C03.OPEN-GUARD", skey(a, "open-true#%d" % (n_true - 1)), ok_guard and ok_trans, g.where(i, j),
-                   "in the Open arm admission is granted only after elapsed >= wait_duration_in_open (%s) and the transition to HalfOpen" % gdesc
-                   if ok_guard and ok_trans else
-                   "in the Open arm admission is granted %s" % ("without the elapsed >= wait_duration_in_open guard" if not ok_guard else "without transitioning to HalfOpen"))
-    rep.floor("C03.open-arm-admit-sites", n_true, 1)
+            # the guard holds on this edge: it is the guard's own edge, or the tested flag inherits it
+            if any(_is_wait_guard(e) and g.edge_dominates((bb, tgt), tgt) and (e["bb"] != bb or e["label"] == lab) for e in dominating_edges(tr, a, tgt)
+                   if e["bb"] == bb or "via" in e):
+                admit_edges.add((bb, tgt))
+    tags_g = g.return_tags([op_entry], avoid_edges=admit_edges) if op_entry is not None else {None}
+    ok_guard = bool(admit_edges) and tags_g <= {"false"}
+    tnodes = [cs.bb for (_b, cs, tgt) in tcalls if tgt == "HalfOpen" and cs.bb in region]
+    tags_t = g.return_tags([op_entry], avoid_nodes=tnodes) if op_entry is not None else {None}
+    ok_trans = bool(tnodes) and tags_t <= {"false"}
+    rep.ob("C03.OPEN-GUARD", skey(a, "open-admits-only-after-wait"), ok_guard, g.where(op_entry) if op_entry is not None else "-",
+           "every path that leaves the Open arm admitting the call has passed elapsed >= wait_duration_in_open (%d guard edge(s))" % len(admit_edges) if ok_guard else
+           ("no guard elapsed(last state change) >= wait_duration_in_open is tested in the Open arm" if not admit_edges else
+            "in the Open arm admission can be granted without the elapsed >= wait_duration_in_open guard (result %s on a path that avoids it)"
+            % sorted(str(t) for t in tags_g - {"false"})))
+    rep.ob("C03.OPEN-GUARD", skey(a, "open-admits-only-after-transition"), ok_trans, g.where(op_entry) if op_entry is not None else "-",
+           "every path that leaves the Open arm admitting the call has transitioned to HalfOpen" if ok_trans else
+           "in the Open arm admission can be granted without transitioning to HalfOpen")
     # writers of state / timestamp
     for fname in (cb.state_field,):
         ws = field_writes(facts, cb.circuit_adt, fname)
